@@ -481,3 +481,13 @@ Theorem hex_literal_instances :
   parse_float "0x1.8p+3" 64 = POk 4622945017495814144.
 Proof. exact FloatLit4.hex_examples. Qed.
 Print Assumptions hex_literal_instances.
+
+(* A leading `+` changes nothing: on any text that begins with a digit and holds no underscore (every literal of the families above), `+text`
+   is read as `text`, in either width - so number_literal_nearest, sci_literal_nearest and hex_literal_nearest extend to `+`-signed spellings. *)
+From Bexpr Require Import FloatLit5.
+Theorem plus_sign_neutral :
+  forall u : string,
+  (exists d0 t, is_digit d0 /\ u = String (digit_char d0) t) -> has_us u = false ->
+  parse_float (String "+"%char u) 64 = parse_float u 64 /\ parse_float (String "+"%char u) 32 = parse_float u 32.
+Proof. exact FloatLit5.plus_sign_neutral_both. Qed.
+Print Assumptions plus_sign_neutral.
